@@ -116,9 +116,9 @@ def mutate_queries():
 # ---- shape sweep: one query per well-nested sequence of event TYPES up to length L (contents symbolic) --------------------
 YT = {"S": 6, "[": 7, "]": 8, "{": 9, "}": 10, "X": 5}    # yaml_event_type_t: scalar, seq start/end, map start/end, alias
 # unit: (max length quick, max length thorough, max length of the thorough variant with the caller's clean-up)
-SHAPE_L = {"board-accessory": (3, 5, 3), "dcc-accessory": (3, 5, 3), "peripheral": (3, 5, 3), "train-peripheral": (3, 5, 3),
-           "segment": (2, 4, 3), "reverser": (2, 4, 3), "dcc-aspect": (2, 4, 3),
-           "board": (0, 3, 2), "train": (0, 3, 2), "board-setup": (0, 3, 2)}
+SHAPE_L = {"board-accessory": (3, 4, 2), "dcc-accessory": (3, 4, 2), "peripheral": (3, 4, 2), "train-peripheral": (3, 4, 2),
+           "segment": (2, 4, 2), "reverser": (2, 4, 2), "dcc-aspect": (2, 4, 2),
+           "board": (0, 3, 2), "train": (0, 3, 2), "board-setup": (0, 3, 1)}
 
 
 def shapes(L):
